@@ -9,14 +9,15 @@ void *malloc (__CPROVER_size_t n) { (void) n; __CPROVER_assert (pool_next < 6, "
 void free (void *p) { (void) p; }
 #include "note.c"
 
-static struct nsync_waiter_s nwG, nwC2;
-static nsync_semaphore semG, semC2;
-static int postedG, postedC2;
+static struct nsync_waiter_s nwG, nwG2, nwC2;     /* two threads wait on G, one on C2 */
+static nsync_semaphore semG, semG2, semC2;
+static int postedG, postedG2, postedC2;
 void nsync_mu_semaphore_init (nsync_semaphore *s) { (void) s; }
 void nsync_mu_semaphore_p (nsync_semaphore *s) { (void) s; }
 int nsync_mu_semaphore_p_with_deadline (nsync_semaphore *s, nsync_time d) { (void) s; (void) d; return 0; }
 void nsync_mu_semaphore_v (nsync_semaphore *s) {
 	if (s == &semG) { __CPROVER_assert (nwG.waiting == 0, "C08: a waiter is posted only after its flag was cleared"); postedG++; }
+	else if (s == &semG2) { __CPROVER_assert (nwG2.waiting == 0, "C08: a waiter is posted only after its flag was cleared"); postedG2++; }
 	else if (s == &semC2) { __CPROVER_assert (nwC2.waiting == 0, "C08: a waiter is posted only after its flag was cleared"); postedC2++; }
 	else __CPROVER_assert (0, "C08: only waiters of notified notes are posted");
 }
@@ -38,7 +39,7 @@ static nsync_time dR, dC1, dC2, dG;
 static void build (void) {
 	int i;
 	vp_reg_clear (); vp_amu_reset (); vp_note_reset (); vp_clock_reset (); vp_tags_init ();
-	pool_next = 0; postedG = 0; postedC2 = 0;
+	pool_next = 0; postedG = 0; postedG2 = 0; postedC2 = 0;
 	for (i = 0; i < 4; i++) { vp_amu_register (&pool[i].note_mu, 0); vp_nt.note[i] = &pool[i]; }
 	dR = mk (dl_table[dl_case][0]); dC1 = mk (dl_table[dl_case][1]); dC2 = mk (dl_table[dl_case][2]); dG = mk (dl_table[dl_case][3]);
 	R = nsync_note_new (NULL, dR);
@@ -50,8 +51,8 @@ static void build (void) {
 	__CPROVER_assert (t_eq (nsync_note_expiry (C1), t_min (dC1, dR)) && t_eq (nsync_note_expiry (C2), t_min (dC2, dR)), "C08: expiry is the minimum along the path (depth 2)");
 	__CPROVER_assert (t_eq (nsync_note_expiry (G), t_min (dG, t_min (dC1, dR))), "C08: expiry is the minimum along the path (depth 3)");
 	__CPROVER_assert (C1->parent == R && C2->parent == R && G->parent == C1 && R->parent == NULL, "C08: a child of an un-notified parent is linked under it");
-	init_nw (&nwG, &semG); init_nw (&nwC2, &semC2);
-	__CPROVER_assert (note_enqueue (G, &nwG) != 0 && note_enqueue (C2, &nwC2) != 0, "C08: an un-notified note accepts waiters");
+	init_nw (&nwG, &semG); init_nw (&nwG2, &semG2); init_nw (&nwC2, &semC2);
+	__CPROVER_assert (note_enqueue (G, &nwG) != 0 && note_enqueue (G, &nwG2) != 0 && note_enqueue (C2, &nwC2) != 0, "C08: an un-notified note accepts waiters");
 }
 static int flag (nsync_note n) { return n->notified != 0; }
 
@@ -60,21 +61,21 @@ static void one_tree_notify_middle (void) {
 	build ();
 	nsync_note_notify (C1);
 	__CPROVER_assert (flag (C1) && flag (G), "C08: after nsync_note_notify returns the note and all its descendants are notified");
-	__CPROVER_assert (nwG.waiting == 0 && postedG == 1 && G->waiters == NULL, "C08: every thread waiting on a descendant is released");
+	__CPROVER_assert (nwG.waiting == 0 && postedG == 1 && nwG2.waiting == 0 && postedG2 == 1 && G->waiters == NULL, "C08: every thread waiting on a descendant is released");
 	__CPROVER_assert (!flag (R) && !flag (C2) && nwC2.waiting == 1 && postedC2 == 0 && C2->waiters == &nwC2.q, "C08: ancestors and siblings are unaffected");
 	__CPROVER_assert (C1->parent == NULL && G->parent == NULL && C1->children == NULL && R->children == &C2->parent_child_link && C2->parent == R,
 			  "C08: notified notes are disconnected from the tree, the rest of the tree is intact");
 	__CPROVER_assert (!vp_amu.held[0] && !vp_amu.held[1] && !vp_amu.held[2] && !vp_amu.held[3], "C08: no note lock is held on return");
 	/* one-way: notifying again changes nothing */
 	nsync_note_notify (C1);
-	__CPROVER_assert (flag (C1) && flag (G) && !flag (R) && !flag (C2) && postedG == 1, "C08: notification is one-way and idempotent");
+	__CPROVER_assert (flag (C1) && flag (G) && !flag (R) && !flag (C2) && postedG == 1 && postedG2 == 1, "C08: notification is one-way and idempotent");
 }
 /* notify the root: everything below is notified */
 static void one_tree_notify_root (void) {
 	build ();
 	nsync_note_notify (R);
 	__CPROVER_assert (flag (R) && flag (C1) && flag (C2) && flag (G), "C08: notifying an ancestor notifies every descendant");
-	__CPROVER_assert (nwG.waiting == 0 && postedG == 1 && nwC2.waiting == 0 && postedC2 == 1, "C08: every waiter on a descendant is released");
+	__CPROVER_assert (nwG.waiting == 0 && postedG == 1 && nwG2.waiting == 0 && postedG2 == 1 && nwC2.waiting == 0 && postedC2 == 1, "C08: every waiter on a descendant is released");
 	__CPROVER_assert (nsync_note_is_notified (G) && nsync_note_is_notified (C2), "C08: descendants are observed notified");
 	__CPROVER_assert (!vp_amu.held[0] && !vp_amu.held[1] && !vp_amu.held[2] && !vp_amu.held[3], "C08: no note lock is held on return");
 }
@@ -83,9 +84,9 @@ static void one_tree_free_middle (void) {
 	build ();
 	nsync_note_free (C1);
 	__CPROVER_assert (G->parent == R && !flag (G) && !flag (R) && !flag (C2), "C08/C09: the children of a freed note are adopted by its parent; nobody is notified by a free");
-	__CPROVER_assert (nwG.waiting == 1 && postedG == 0, "C08: freeing a note releases no waiter of its children");
+	__CPROVER_assert (nwG.waiting == 1 && postedG == 0 && nwG2.waiting == 1 && postedG2 == 0, "C08: freeing a note releases no waiter of its children");
 	nsync_note_notify (R);
-	__CPROVER_assert (flag (G) && flag (C2) && nwG.waiting == 0 && postedG == 1, "C08/C09: a later notification of the adopting ancestor reaches the adopted child");
+	__CPROVER_assert (flag (G) && flag (C2) && nwG.waiting == 0 && postedG == 1 && nwG2.waiting == 0 && postedG2 == 1, "C08/C09: a later notification of the adopting ancestor reaches the adopted child");
 	__CPROVER_assert (!vp_amu.held[0] && !vp_amu.held[1] && !vp_amu.held[2] && !vp_amu.held[3], "C08: no note lock is held on return");
 }
 /* a child of a notified parent is born notified and is not linked */
